@@ -80,6 +80,9 @@ SPECIAL_DOCS = [
     {"title": "bad corr cond", "correlation": {"type": "event_count", "rules": ["base1"], "timespan": "5m", "condition": {"gte": 1, "zeta": 2, "alpha": 3, "mid": 4}}},
     {"title": "bad corr unref", "correlation": {"type": "temporal", "rules": ["base1", "base2", "zz_rule", "aa_rule"], "timespan": "5m", "condition": "base1 or base2"}},
     {"title": "bad modifier", "logsource": {"category": "test"}, "detection": {"sel": {"f|nomod": 1}, "condition": "sel"}},
+    # a rule without title and id (loads with a collected error) that fails at conversion, and a correlation rule over it
+    {"name": "untitled_rule", "logsource": {"category": "test", "product": "p"}, "detection": {"sel": {"f|expand": "%nope%", "g": 1, "Image": "x"}, "condition": "sel"}},
+    {"title": "corr over untitled", "correlation": {"type": "event_count", "rules": ["untitled_rule"], "timespan": "5m", "condition": {"gte": 1}}},
     {"title": "several bad modifiers", "logsource": {"category": "test"}, "detection": {"sel": {"f|zzmod|contains|aamod|qqmod|mmmod": 1, "g|k1|k2|k3": 2}, "condition": "sel"}},
     {"title": "several bad keys", "logsource": {"category": "test", "zz_extra": 1, "aa_extra": 2, "mm_extra": 3}, "detection": {"sel": {"f": 1}, "condition": "sel"}, "level": "nolevel", "status": "nostatus"},
     {"title": "bad value", "logsource": {"category": "test"}, "detection": {"sel": {"f|contains": None}, "condition": "sel"}},
